@@ -30,6 +30,9 @@ fn any_table(n: usize) -> (JobManager, [usize; 3]) {
     let anns: [u8; 3] = [any_below(3), any_below(3), any_below(3)];
     kani::assume(ids[0] >= 1 && ids[0] <= 8 && ids[1] >= 1 && ids[1] <= 8 && ids[2] >= 1 && ids[2] <= 8);
     kani::assume(ids[0] != ids[1] && ids[0] != ids[2] && ids[1] != ids[2]);
+    // at most one job among the first n is annotated Current (established by add_as_current itself, preserved by removal)
+    let cur = |k: usize| -> usize { if k < n && anns[k] == 1 { 1 } else { 0 } };
+    kani::assume(cur(0) + cur(1) + cur(2) <= 1);
     let mut jobs = Vec::with_capacity(4);
     if n >= 1 { jobs.push(mk_job(ids[0], anns[0])); }
     if n >= 2 { jobs.push(mk_job(ids[1], anns[1])); }
